@@ -399,7 +399,11 @@ class CxxParser:
         tokens: LexTokenList = []
         while True:
             tok = self.lex.token_newline_eof_ok()
-            if not tok or tok.type == "NEWLINE":
+            if not tok or tok.type in (
+                "NEWLINE",
+                "COMMENT_SINGLELINE",
+                "COMMENT_MULTILINE",
+            ):
                 break
             if tok.type in self._balanced_token_map:
                 tokens.extend(self._consume_balanced_tokens(tok))
